@@ -147,7 +147,10 @@ def runEdit (toks : List String) : List String :=
       let outI := runInv s0 ops
       let out : St × List Ret := (s0, outI.1)
       let encs := (out.2.filter (fun r => match r with | .encoded .. => true | _ => false)).zipIdx
-      let invLine := s!"edit {case} inv={showStrs ((outI.2.take 1).map (fun b => if b then "ok" else "VIOLATED"))}"
+      -- the invariant is proved inductive (Lemmas/Preserve.lean): it is checked on the state built from the parsed module
+      -- (hypothesis of `stInv_of_parsed`); the check in front of the first encode is kept as a cross-check of the model
+      let inv0 := stInvB s0 && s0.f.items.all (fun it => !it.del) && s0.g.items.all (fun it => !it.del) && s0.m.items.all (fun it => !it.del)
+      let invLine := s!"edit {case} inv={showStrs (((inv0 :: outI.2).take 2).map (fun b => if b then "ok" else "VIOLATED"))}"
       let tagged := (ops.take out.2.length).zip out.2
       let retLine (c : Nat) (nm : String) : String :=
         s!"edit {case} {nm}={showStrs ((tagged.filter (fun p => opClass p.1 == c)).map (fun p => showRet p.2))}"
